@@ -43,6 +43,10 @@ SPECS = [
     ("CHUNK_AT_LEAST_BLOCK", "src/delta/generator.rs", r"let chunk_size = CHUNK_SIZE\.max\(block_size\);\s*let mut window = Vec::with_capacity\(block_size \+ chunk_size\);\s*let mut chunk_buf = vec!\[0u8; chunk_size\];()", 1, "Z", ["C04"]),
     ("MIN_BLOCK", "src/delta/mod.rs", r"size\.clamp\(([0-9_ \*]+),", 512, "Z", ["C04"]),
     ("MAX_BLOCK", "src/delta/mod.rs", r"size\.clamp\([0-9_ \*]+,\s*([0-9_ \*]+)\)", 131072, "Z", ["C04"]),
+    # calculate_block_size returns the clamped value itself (Delta.calculate_block_size), and the only caller that
+    # chooses a block size for the rolling generator takes it from there
+    ("BLOCK_SIZE_IS_CLAMPED", "src/delta/mod.rs", r"pub fn calculate_block_size\(file_size: u64\) -> usize \{\s*let size = [^;]+;\s*size\.clamp\([0-9_ \*]+,\s*[0-9_ \*]+\)\s*\}()", 1, "Z", ["C04"]),
+    ("SSH_BLOCK_FROM_CLAMP", "src/transport/ssh.rs", r"let block_size = calculate_block_size\(dest_size\);()", 1, "Z", ["C04"]),
 ]
 
 EXTRA = []  # filled by register() calls from other modules of this file (below)
